@@ -1,6 +1,7 @@
 """additional deciders attached to properties: Kani harness groups, replay of known findings"""
 import json
 import os
+import re
 import subprocess
 
 from . import kani
@@ -9,19 +10,37 @@ from .gen import ROOT, REPO
 REPLAY_BIN = os.path.join(ROOT, 'build', 'replay-target', 'release', 'replay')
 
 
-def kani_hook(harnesses, tiers=('thorough',), stubbing=(), bounded=None, timeout=1500):
+class HookUndecided(Exception):
+    """a decider that the property depends on gave no verdict (time-out, back-end failure): exit 2, never a violation"""
+
+
+def kani_hook(harnesses, tiers=('thorough',), stubbing=(), bounded=None, timeout=1500, jobs=4, required=False, concretize=None):
     """harnesses: list of harness names; a FAILED verdict is a violation (CBMC gives the failing check),
-    TIMEOUT / ERROR is undecided (reported in the evidence, never a violation)."""
+    TIMEOUT / ERROR is undecided (reported in the evidence, never a violation).  Up to `jobs` harnesses run side by side
+    (one CBMC process each, separate cargo target directories)."""
     def run(pid, P, tier, seed, ctx):
         if tier not in tiers:
             return [], {}
+        import concurrent.futures
+        import queue
         kani.prepare()
         results = []
         failures = []
+        slots = queue.Queue()
+        for i in range(jobs):
+            slots.put(i)
+
+        def one(h):
+            sl = slots.get()
+            try:
+                return kani.run_harness(h, timeout=timeout, stubbing=(h in stubbing), slot=sl)
+            finally:
+                slots.put(sl)
         try:
-            for h in harnesses:
-                r = kani.run_harness(h, timeout=timeout, stubbing=(h in stubbing))
-                results.append({k: r[k] for k in ('harness', 'verdict', 'wall_s', 'cmd') if k in r} | {
+            with concurrent.futures.ThreadPoolExecutor(max_workers=jobs) as ex:
+                rs = list(ex.map(one, harnesses))
+            for h, r in zip(harnesses, rs):
+                results.append({k: r[k] for k in ('harness', 'verdict', 'wall_s', 'cmd', 'note') if k in r} | {
                     'checks': r.get('checks'), 'failed': r.get('failed')})
                 if r['verdict'] == 'FAILED':
                     failures.append(dict(obligation='kani/%s [%s]' % (h, '; '.join(r['failed_checks'])[:200]), kind='kani',
@@ -29,11 +48,33 @@ def kani_hook(harnesses, tiers=('thorough',), stubbing=(), bounded=None, timeout
                                          message='Kani/CBMC: VERIFICATION FAILED', rendered=r['tail']))
         finally:
             kani.cleanup()
-        cov = {'kani': results}
+        cov = {'kani': ctx_merge(P, results)}
         if bounded:
             cov['kani_bound'] = bounded
+        if failures and concretize:
+            # CBMC's trace is not turned into a Rust value here; a native search of the same input space on the real crate
+            # supplies the concrete failing input for the replay file
+            binary, err = build_replay()
+            if binary:
+                rc, out = replay(binary, concretize, timeout=600)
+                m = re.search(r'mismatches: \[(.*?)(?:, "|\])', out)
+                if rc == 1 and m:
+                    for f in failures:
+                        f['failing_input'] = m.group(1)[:300]
+                        f['replay'] = [binary] + concretize
+                        f['rendered'] = (f.get('rendered') or '') + '\n--- native search (%s) ---\n%s' % (' '.join(concretize), out)
+        noverdict = [r['harness'] + ':' + r['verdict'] for r in results if r['verdict'] not in ('SUCCESSFUL', 'FAILED')]
+        if required and noverdict and not failures:
+            raise HookUndecided('Kani gave no verdict for %s' % ', '.join(noverdict))
         return failures, cov
     return run
+
+
+def ctx_merge(P, results):
+    """several Kani hooks of one property append to one list"""
+    acc = P.setdefault('_kani_results', [])
+    acc.extend(results)
+    return list(acc)
 
 
 def build_replay():
